@@ -331,6 +331,20 @@ def _g3_job(job):
                                     "%s:%d has %d columns of code (> 132) at default settings: %s"
                                     % (rel, no, len(code.rstrip()), ln[:160])))
                 break
+    # layout directives (tab / form feed / carriage return hints) steer the line formatter only: none may be
+    # left in an emitted file (the inputs used here contain none themselves)
+    if not any(c in text for c in "\t\f\r"):
+        for rel, data in sorted(base.files.items()):
+            if lex.file_kind(rel) in ("json", "log"):
+                continue
+            for ch, what in ((b"\r", "carriage return"), (b"\f", "form feed"), (b"\t", "tab")):
+                k = data.find(ch)
+                if k >= 0:
+                    no = data.count(b"\n", 0, k) + 1
+                    res["fail"].append(("g3:directive-in-output", dict(kind="g3", lib=name, yaml=text, argv=argv, lengths=None),
+                                        "%s:%d contains a raw %s (layout directive written into the file): %r"
+                                        % (rel, no, what, data.split(b"\n")[no - 1][:120])))
+                    break
     try:
         base_tok = {rel: lex.code_tokens(rel, d) for rel, d in base.files.items()}
     except lex.LexError as e:
